@@ -205,6 +205,11 @@ def refit_vs_fresh(scn):
     a = S.make_mab(scn["cfg"])
     T.apply_ops(a, scn["ops"])
     fresh = MAB(list(a.arms), a.learning_policy, a.neighborhood_policy, seed=a.seed, n_jobs=a.n_jobs, backend=a.backend)
+    for k, v in vars(a).items():
+        if k.startswith("_verif_") and k != "_verif_width":
+            setattr(fresh, k, v)             # the same choice of containers on both sides
+    if hasattr(a, "_verif_width"):
+        del a._verif_width                   # (the width of the old history says nothing about D)
     fresh._rng.rng.bit_generator.state = copy.deepcopy(a._rng.rng.bit_generator.state)
     refit = dict(op="fit", **scn["refit"])
     o1 = T.apply_op(a, refit)
@@ -2038,7 +2043,7 @@ def gen_c18(seed, index):
     return scn
 
 
-def _containers(op, variant, first_int_ok):
+def _containers(op, variant, first_int_ok, width=None):
     """the same data in another container type"""
     import pandas as pd
     d, r, c = op.get("d"), op.get("r"), op.get("c")
@@ -2064,6 +2069,10 @@ def _containers(op, variant, first_int_ok):
                 m = pd.Series(m[:, 0])           # single feature column as a Series
             elif m.shape[0] == 1 and d is not None:
                 m = pd.Series(m[0, :])           # single row as a Series
+            elif d is None and width is not None and m.shape[1] == width and (m.shape[0] == 1 or width == 1):
+                # a query as a Series: one row of `width` features, or several rows of one feature (the facade tells
+                # them apart by the number of features the bandit was trained with)
+                m = pd.Series(m[0, :] if m.shape[0] == 1 else m[:, 0])
             else:
                 m = pd.DataFrame(m)
         out["c"] = m
@@ -2096,11 +2105,14 @@ def containers_and_caller_objects(scn):
     b = MAB(arms_b, S.make_lp(cfg["lp"], cfg.get("binz")), S.make_np(cfg.get("np")), seed=cfg.get("seed", 1))
     variant = scn.get("variant", "ndarray")
     buffers = {}
+    width = None                  # number of features of the last accepted training call
     for i, op in enumerate(scn["ops"]):
         ra = T.apply_op(a, op)
+        if op["op"] in ("fit", "pfit") and ra[0] == "ok" and op.get("c"):
+            width = len(op["c"][0])
         k = op["op"]
         if k in ("fit", "pfit", "pexp", "pred"):
-            cont = _containers(op, "ndarray" if variant.endswith("_reused") else variant, True)
+            cont = _containers(op, "ndarray" if variant.endswith("_reused") else variant, True, width=width)
             if variant.endswith("_reused") and cont.get("c") is not None and k in ("pexp", "pred"):
                 # the caller keeps one *query* buffer per shape and overwrites it in place between calls: what the bandit
                 # answers depends on the numbers in the buffer at the time of the call, not on the object's identity.
